@@ -26,7 +26,7 @@ type c06In struct {
 const c06SentinelX = 7
 
 var c06Schemas = []string{"exact", "int32", "nullable", "badname", "extracol", "empty"}
-var c06Acts = []string{"emit", "emit2", "noemit", "finish", "emit_finish", "err"}
+var c06Acts = []string{"emit", "emit2", "noemit", "finish", "emit_finish", "err", "finish_ign", "emit_finish_ign"}
 
 func c06Errs() []ErrSpec {
 	return []ErrSpec{
@@ -219,7 +219,8 @@ func c06Logs(ls []LogSpec) string {
 }
 
 func c06Turn(t TurnScript) string {
-	act := map[string]string{"emit": "C06.AEmit", "emit2": "C06.AEmitTwice", "noemit": "C06.ANoEmit", "finish": "C06.AFinish", "emit_finish": "C06.AEmitFinish"}[t.Act]
+	act := map[string]string{"emit": "C06.AEmit", "emit2": "C06.AEmitTwice", "noemit": "C06.ANoEmit", "finish": "C06.AFinish", "emit_finish": "C06.AEmitFinish",
+		"finish_ign": "C06.AFinishIgnored", "emit_finish_ign": "C06.AEmitFinishIgnored"}[t.Act]
 	if t.Act == "err" {
 		act = App("C06.AFail", c06Bare(t.Err))
 	}
@@ -356,6 +357,6 @@ func c06Run(in c06In) CaseOut {
 }
 
 func init() {
-	Register("C06", "boundary first (every act emit/emit2/noemit/finish/emit_finish/err at turn 0..2 in both modes; cancel at input 0..3 with/without a canceller state and with inputs after it; header declared x given; all 6 client input schemas incl. int32->int64 and nullable casts and 3 uncastable ones against both modes; empty input; script shorter than input; init failure), then random stream calls: 0-6 scripted turns (20% non-emit acts, 7 failure kinds), 0-3 logs per turn at any level text with extras, user metadata on data batches, 0-7 inputs with 0-3 rows each, cancel at a random position in 1/3 of the cases (any cancel value text), random requested level and request id; 1/5 of the cases form the malformed stream (any schema against any mode, init failures). Every case is followed by a sentinel unary call on the same pipe. non-trivial = at least one turn ran, or the cancel hook ran, or an exception batch was produced; distinct = distinct input JSON",
+	Register("C06", "boundary first (every act emit/emit2/noemit/finish/emit_finish/err/finish-ignored/emit-finish-ignored at turn 0..2 in both modes; cancel at input 0..3 with/without a canceller state and with inputs after it; header declared x given; all 6 client input schemas incl. int32->int64 and nullable casts and 3 uncastable ones against both modes; empty input; script shorter than input; init failure), then random stream calls: 0-6 scripted turns (20% non-emit acts, 7 failure kinds), 0-3 logs per turn at any level text with extras, user metadata on data batches, 0-7 inputs with 0-3 rows each, cancel at a random position in 1/3 of the cases (any cancel value text), random requested level and request id; 1/5 of the cases form the malformed stream (any schema against any mode, init failures). Every case is followed by a sentinel unary call on the same pipe. non-trivial = at least one turn ran, or the cancel hook ran, or an exception batch was produced; distinct = distinct input JSON",
 		c06Gen, c06Run)
 }
